@@ -149,6 +149,7 @@ func propC01(j *Job) {
 		cases = append(cases, withSuspend(famW1(modes, []uint32{6}, 1), 1)...)
 		cases = append(cases, withSuspend(famW2(modes, 0), 2)...)
 		cases = append(cases, famKS(modes, 3, false, []time.Duration{0, 300 * time.Millisecond}, 4)...)
+		cases = append(cases, famZ7(modes, 1)...)
 	} else {
 		cases = append(cases, famW1(modes, []uint32{0, 4}, 1)...)
 		cases = append(cases, famW1(modes, []uint32{1, 2, 3, 5, 6, 7, 8}, 0)...)
@@ -180,6 +181,7 @@ func propC02(j *Job) {
 		cases = append(cases, withSuspend(famZ1(modes[:1], 1), 1)...)
 		cases = append(cases, withSuspend(famZ2(modes[:1], 0), 2)...)
 		cases = append(cases, famKS(modes, 3, false, []time.Duration{0, 300 * time.Millisecond}, 4)...)
+		cases = append(cases, famZ7(modes, 1)...)
 	} else {
 		cases = append(cases, famW1(modes, []uint32{6}, 1)...)
 		cases = append(cases, famW2(modes[:1], 1)...)
@@ -189,6 +191,7 @@ func propC02(j *Job) {
 		cases = append(cases, famZ4([]uint32{520000, 1048576}, []int{300, 4200})...)
 		cases = append(cases, famZ5(modes[:1], []time.Duration{400 * time.Millisecond, 500 * time.Millisecond}, []int{2}, 1)...)
 		cases = append(cases, famKS(modes[:2], 2, false, []time.Duration{0}, 3)...)
+		cases = append(cases, famZ7(modes, 0)...)
 	}
 	runCases(j, cases, func(spec *xferSpec) func(m *Sim, x *Exec, r *xferResult) { return deliveryFinal(spec, true, monOpts{}) })
 }
